@@ -9,6 +9,13 @@ Small == {S \in SUBSET Slots : Cardinality(S) <= 3}
 SBind(dummy) ==
   { [tds |-> {Td(s, "t", Q("", "string"), s, "", "") : s \in S}, site |-> x, ref |-> r, leaf |-> NoLeaf, members |-> <<>>, via |-> "inline"] :
        S \in Small, x \in Sites, r \in {Q("", "t"), Q("a", "t"), Q("b", "t")} }
+\* S_same: a typedef t of module a derived from the typedef of the SAME name in the imported module (or its submodule),
+\* optionally shadowed by a third t in an inner scope; every site, two spellings
+SSame(dummy) ==
+  { [tds |-> {Td("A0", "t", Q("b", "t"), "A0", "", ""), Td(bs, "t", Q("", "string"), bs, "", "")}
+             \cup (IF inner = "" THEN {} ELSE {Td(inner, "t", Q("a", "t"), inner, "", "")}),
+     site |-> x, ref |-> r, leaf |-> NoLeaf, members |-> <<>>, via |-> "inline"] :
+       bs \in {"B0", "BS0"}, inner \in {"", "C1", "G1"}, x \in Sites, r \in {Q("", "t"), Q("a", "t")} }
 \* S_chain: leaf lc { type t } -> t -> u -> v -> string, with shadowing, foreign steps, cycles, an unknown base
 Att(name, k) == CASE k = "all" -> [units |-> name \o "-units", dflt |-> name \o "-dflt", pat |-> name \o "-pat"]
                   [] k = "none" -> [units |-> "", dflt |-> "", pat |-> ""]
